@@ -283,10 +283,24 @@ def run_sections(acc, P, gen):
             acc.ev()
             buf = io.StringIO()
             try:
-                with world.entry_points(policies=sections):
-                    with contextlib.redirect_stdout(buf):
-                        gen._generate_sample(sorted(sections), None, fmt)
-                text = buf.getvalue()
+                # every other layout writes to an output FILE that already
+                # holds a (much longer) sample from an earlier run
+                to_file = sum(combo) % 2 == 1
+                wf = world.FileWorld() if to_file else None
+                try:
+                    out = None
+                    if to_file:
+                        wf.write('sample.out', '# old sample\n' +
+                                 '"old:rule": "role:left-over"\n' * 200)
+                        out = wf.path('sample.out')
+                    with world.entry_points(policies=sections):
+                        with contextlib.redirect_stdout(buf):
+                            gen._generate_sample(sorted(sections), out, fmt)
+                    text = wf.read('sample.out') if to_file else \
+                        buf.getvalue()
+                finally:
+                    if wf:
+                        wf.destroy()
                 if fmt == 'json':
                     got = json.loads(text) if expected or text.strip() \
                         else {}
